@@ -44,7 +44,6 @@ auto verif_count_negative_reshape(svi_t dst) { return ix::count_negative_reshape
 auto verif_shape_reshape(sv_t src, svi_t dst) { return ix::shape_reshape(src,dst); }
 auto verif_shape_reshape_safe(sv_t src, svi_t dst) { return ix::shape_reshape(src,dst); }
 
-#ifdef C03_EXTRAS
 // ---- expand_dims / squeeze / atleast_nd / flatten
 auto verif_shape_expand_dims(sv_t shape, int axis) { return ix::shape_expand_dims(shape,axis); }
 auto verif_shape_squeeze(sv_t shape) { return ix::shape_squeeze(shape); }
@@ -53,4 +52,3 @@ auto verif_shape_atleast_1d(sv_t shape) { return ix::shape_atleast_nd(shape,nm::
 auto verif_shape_atleast_2d(sv_t shape) { return ix::shape_atleast_nd(shape,nm::meta::ct_v<2>); }
 auto verif_shape_atleast_3d(sv_t shape) { return ix::shape_atleast_nd(shape,nm::meta::ct_v<3>); }
 auto verif_shape_flatten(sv_t shape) { return ix::shape_flatten(shape,nm::None); }
-#endif
